@@ -28,6 +28,9 @@ type TaskSpec struct {
 	W    *WriterSpec `json:"w"`    // writer: its history; reader: the history that produces the file it reads
 	// reader only
 	SourceKind string `json:"source_kind,omitempty"`
+	// optional fault plans of this instance (the solo reference runs with the same plan)
+	SinkFault *SinkFault `json:"sink_fault,omitempty"`
+	SrcFault  *SrcFault  `json:"src_fault,omitempty"`
 }
 
 // Segment is a run-length piece of an executed schedule.
